@@ -105,3 +105,19 @@ for cfg, prog in facts.load_many(list(_beliefs.CONFIGS)).items():
     refb[cfg] = {fk: dict(c) for fk, c in pop.items()}
 json.dump(refb, open(os.path.join(os.path.dirname(os.path.abspath(__file__)), "sa", "ref_beliefs.json"), "w"), indent=0, sort_keys=True)
 print({c: sum(sum(v.values()) for v in refb[c].values()) for c in refb}, "belief sites")
+
+# functions that some property's check reads with a rule of its own (not only through the generic normal-form rules)
+import subprocess, tempfile, glob as _glob
+_ev = tempfile.mkdtemp(prefix="refded-", dir=os.path.join(os.path.dirname(os.path.abspath(__file__)), ".work"))
+_here = os.path.dirname(os.path.abspath(__file__))
+_claimed = [c["property_id"] for c in json.load(open(os.path.join(_here, "MANIFEST.json")))["checks"]]
+ded = set()
+for _pid in _claimed:
+    subprocess.run([os.path.join(_here, "check"), _pid, "--tier", "thorough"], cwd=_here, capture_output=True, text=True,
+                   env=dict(os.environ, VERIF_EVIDENCE_DIR=_ev, VERIF_FACT_CACHE="1"))
+for _p in _glob.glob(_ev + "/C*.json"):
+    ded |= set(json.load(open(_p))["coverage"].get("function_paths_read_by_dedicated_rules", []))
+json.dump(sorted(ded), open(os.path.join(_here, "sa", "ref_dedicated.json"), "w"), indent=0)
+import shutil as _sh
+_sh.rmtree(_ev, ignore_errors=True)
+print(len(ded), "function paths read by dedicated rules")
